@@ -35,7 +35,7 @@ ASSUMPTIONS = [
     "transmission bound, payload identity and the socket clause are checked on those paths",
     "real loopback sockets (/proc/self/fd) are outside deterministic simulation; they are used only by `selftest fidelity`",
 ]
-PROBES = ["another_loop_used_before_and_still_open", "timeout_raised", "late_reply_dropped", "duplicate_reply", "icmp_error", "fatal_error", "reply_on_last_attempt",
+PROBES = ["second_call_in_flight_at_the_same_time", "another_loop_used_before_and_still_open", "timeout_raised", "late_reply_dropped", "duplicate_reply", "icmp_error", "fatal_error", "reply_on_last_attempt",
           "via_client_get", "error_then_retry_or_raise", "wall_clock_jumps", "send_blocked", "empty_reply", "slow_socket_setup", "ipv6_peer",
           "cancelled_by_caller", "reply_over_1024_octets"]
 shrink_lists: List[tuple] = []
@@ -78,7 +78,16 @@ def plan_for(tier: str, seed: int, i: int) -> dict:
             "setup_ticks": setup, "ipv6": crng.random() < 0.2, "cancel_at": cancel_at,
             # another event loop of the same process on which the sender was used before and which is still open (a second
             # thread's loop, a loop kept for later): the call under test runs on its own loop all the same
-            "other_loop_open": rng_for(seed, ID, tier + ":loop", i).random() < 0.06}
+            "other_loop_open": rng_for(seed, ID, tier + ":loop", i).random() < 0.06,
+            # a second, independent call to another (silent) peer runs at the same time on the same loop: each call has its
+            # own retry budget and timing
+            "background": _gen_background(rng_for(seed, ID, tier + ":bg", i)) if cancel_at is None else None}
+
+
+def _gen_background(r: Any) -> Optional[dict]:
+    if r.random() >= 0.08:
+        return None
+    return {"retries": r.randrange(1, 4), "timeout": r.choice(TIMEOUTS), "start_ticks": r.choice([0, 0, 1, 300, 1024, 1500])}
 
 
 class ScriptedPeer:
@@ -167,8 +176,17 @@ def execute(plan: dict) -> dict:
     peer = ScriptedPeer(w, plan)
     peer_ip = "fd00::2" if plan.get("ipv6") else "10.0.0.2"
     w.net.add_agent((peer_ip, 161), peer)
-    w.net.send_gate = peer.on_send
-    setup = list(plan.get("setup_ticks") or [])
+    bgp = plan.get("background")
+    bg: Dict[str, Any] = {"sends": [], "exc": None, "t0": None, "t_end": None}
+    bg_ip = "fd00::3" if plan.get("ipv6") else "10.0.0.3"
+
+    def gate(transport: Any, data: bytes) -> Optional[float]:
+        if transport._remote is not None and transport._remote[0] != peer_ip:
+            bg["sends"].append(w.loop.time())
+            return None
+        return peer.on_send(transport, data)
+    w.net.send_gate = gate
+    setup = list(plan.get("setup_ticks") or []) if not bgp else []
     n_endpoints = [0]
 
     def endpoint_delay() -> float:
@@ -203,8 +221,24 @@ def execute(plan: dict) -> dict:
 
     async def abandoned(coro: Any) -> Any:
         return await asyncio.wait_for(coro, plan["cancel_at"] * TICK)
+    async def with_background(main: Any) -> Any:
+        async def second_call() -> None:
+            await asyncio.sleep(bgp["start_ticks"] * TICK)
+            bg["t0"] = w.loop.time()
+            try:
+                await send_udp(Endpoint(ip_address(bg_ip), 161), b"\x30\x0abackground", timeout=bgp["timeout"], retries=bgp["retries"])
+            except Exception as e:  # noqa: BLE001
+                bg["exc"] = e
+            bg["t_end"] = w.loop.time()
+        task = asyncio.ensure_future(second_call())
+        try:
+            return await main
+        finally:
+            await task
     try:
         coro = direct() if client is None else via_client()
+        if bgp:
+            coro = with_background(coro)
         res = w.run(abandoned(coro) if plan.get("cancel_at") else coro)
     except asyncio.TimeoutError:
         cancelled = True        # the caller gave up: the call was cancelled wherever it happened to be
@@ -228,7 +262,7 @@ def execute(plan: dict) -> dict:
 
     atts = peer.attempts
     socks = w.net.all_sockets
-    sends = [(t, data, s.sock_id) for s in socks for (t, data) in s.sent]
+    sends = [(t, data, s.sock_id) for s in socks if s._remote is None or s._remote[0] == peer_ip for (t, data) in s.sent]
     sends.sort()
     excname = type(exc).__name__ if exc else None
     if len(sends) > retries:
@@ -286,6 +320,15 @@ def execute(plan: dict) -> dict:
                 want_end = retries * timeout + sum(setup[:retries]) * TICK
                 if t_end != want_end:
                     fail("timeout-instant", "Timeout raised at t=%.6f, expected %s" % (t_end, want_end))
+    if bgp:
+        # the concurrent call to the silent peer: exactly its own budget, its own timing
+        gaps = [b - a for a, b in zip(bg["sends"], bg["sends"][1:])]
+        if type(bg["exc"]).__name__ != "Timeout" or len(bg["sends"]) != bgp["retries"] or \
+                any(g != bgp["timeout"] for g in gaps) or bg["t_end"] - bg["t0"] != bgp["retries"] * bgp["timeout"]:
+            fail("concurrent-call-disturbed", "a second call (retries=%d timeout=%s, never answered) running at the same time "
+                 "ended with %s after %d transmissions (gaps %s) and %.6f s" % (
+                     bgp["retries"], bgp["timeout"], type(bg["exc"]).__name__ if bg["exc"] else "a result", len(bg["sends"]),
+                     gaps, (bg["t_end"] or 0) - (bg["t0"] or 0)))
     # replies never cross sockets: each datagram delivered to a client socket answers that socket's own port
     # (guaranteed by addressing in the simulated network; checked through the open-port log)
     open_after = w.net.open_sockets()
@@ -300,6 +343,7 @@ def execute(plan: dict) -> dict:
         "via_client_get": int(client is not None), "error_then_retry_or_raise": int(error_seen),
         "wall_clock_jumps": int(plan.get("clock", {}).get("mode") == "jumping"),
         "send_blocked": int("B" in seq[:len(atts)]), "slow_socket_setup": int(any(setup[:max(1, len(atts))])),
+        "second_call_in_flight_at_the_same_time": int(bool(bgp)),
         "ipv6_peer": int(bool(plan.get("ipv6"))), "another_loop_used_before_and_still_open": int(bool(plan.get("other_loop_open"))), "cancelled_by_caller": int(cancelled),
         "reply_over_1024_octets": int(answered_at is not None and len(atts[answered_at]["replies"][0][1]) > 1024),
         "empty_reply": int(answered_at is not None and atts[answered_at]["replies"][0][1] == b""),
@@ -329,6 +373,8 @@ def execute(plan: dict) -> dict:
 def simplify(plan: dict):
     if plan.get("other_loop_open"):
         p = dict(plan); p["other_loop_open"] = False; yield p
+    if plan.get("background"):
+        p = dict(plan); p["background"] = None; yield p
     if plan["via"] == "client":
         p = dict(plan); p["via"] = "send_udp"; yield p
     if plan["retries"] > 1:
